@@ -772,7 +772,10 @@ def evaluate(ctx, cases):
         lines += ls
     outs = core.run_driver(lines)
     for c, i, (a, b) in zip(cases, impls, spans):
-        judge(ctx, c, i, ([None] if "R" in i else []) + outs[a:b])
+        try:
+            judge(ctx, c, i, ([None] if "R" in i else []) + outs[a:b])
+        except Exception as e:  # noqa: BLE001 -- what evo returned could not even be judged: a finding about this case, never a tool error
+            ctx.fail(c, "output-cannot-be-judged", f"the harness could not judge what evo returned: {type(e).__name__}: {str(e)[:200]}")
 
 
 OPEN = ["numpy.linalg.svd is not modelled: the exact theorems start from the certificate umeCert 0; the gap to evo's float "
